@@ -7,7 +7,8 @@
 //	empty-backup    a 0-byte .cow (crash right after the file was created)
 //	invalid-backup  a .cow that is not a usable pre-image: wrong ("stale") size, or 4096 bytes whose own
 //	                checksum does not match
-//	valid-backup    a .cow holding the valid PREVIOUS image of the block
+//	valid-backup    a .cow holding the valid PREVIOUS image of the block, or (valid-zero) the all-zero
+//	                pre-image saved before the block's first write
 //
 // Oracle (statement: "a registry block whose checksum does not match, and that has no valid backup,
 // causes lookups and updates to fail with an error; its contents are never decoded into handles or
@@ -313,8 +314,19 @@ func (w *worker) setState(c *Case, mutated []byte) error {
 		data[regx.BlockSize-2] ^= 0x40 // a backup whose own checksum does not match
 	case "valid":
 		data = c.Img.B0
+	case "valid-zero":
+		data = make([]byte, regx.BlockSize)
 	}
 	return os.WriteFile(cp, data, 0o644)
+}
+
+// old is what the backup holds for id (a zero backup holds nothing).
+func (c *Case) old(id sop.UUID) (sop.Handle, bool) {
+	if c.BackupKind == "valid-zero" {
+		return sop.Handle{}, false
+	}
+	h, ok := c.Img.Old[id]
+	return h, ok
 }
 
 func (w *worker) open(c *Case) *regx.Reg {
@@ -393,8 +405,9 @@ func (w *worker) run(c *Case) {
 		switch {
 		case gerr != nil:
 			viol("get", "error-despite-valid-backup", map[string]any{"error": gerr.Error()})
-		case !found || h != c.Img.Old[c.GetID]:
-			viol("get", "backup-content-not-served", map[string]any{"expected": c.Img.Old[c.GetID], "observed_found": found, "observed_handle": h})
+		case func() bool { oh, ok := c.old(c.GetID); return found != ok || (ok && h != oh) }():
+			oh, ok := c.old(c.GetID)
+			viol("get", "backup-content-not-served", map[string]any{"expected_present": ok, "expected": oh, "observed_found": found, "observed_handle": h})
 		default:
 			w.r.Count("lookups_served_backup_content", 1)
 		}
@@ -442,6 +455,34 @@ func (w *worker) run(c *Case) {
 			viol("update", "error-but-block-rewritten", map[string]any{"error": uerr.Error(), "update_kind": c.UpdKind})
 		default:
 			w.r.Count("updates_reported_error", 1)
+		}
+		return
+	}
+	if c.BackupKind == "valid-zero" {
+		// the restored block is empty: whether updating an id it does not hold is accepted or refused is not
+		// judged; afterwards the block must be valid and must not hold anything taken from the damaged image
+		other := c.GetID
+		if other == c.UpdID {
+			for _, id := range c.Img.IDs {
+				if id != c.UpdID {
+					other = id
+					break
+				}
+			}
+		}
+		if rg = w.open(c); rg == nil {
+			return
+		}
+		got, gerr = rg.Get(other)
+		rg.Close()
+		_, served := got[other]
+		switch {
+		case !blockValid(after) && uerr == nil:
+			viol("update", "accepted-and-block-left-invalid", map[string]any{"update_kind": c.UpdKind})
+		case gerr == nil && served && other != c.UpdID:
+			viol("update", "damaged-content-kept-as-valid", map[string]any{"update_kind": c.UpdKind, "update_error": fmt.Sprint(uerr), "id_served_from_damaged_image": other, "handle": got[other]})
+		default:
+			w.r.Count("updates_on_block_restored_from_zero_backup", 1)
 		}
 		return
 	}
@@ -498,6 +539,7 @@ func pickIDs(rnd *rand.Rand, img *image, byteOff int) (sop.UUID, sop.UUID) {
 var backupKinds = []struct{ class, kind string }{
 	{"no-backup", "none"}, {"empty-backup", "empty"}, {"invalid-backup", "short-100"}, {"invalid-backup", "short-4095"},
 	{"invalid-backup", "long-4100"}, {"invalid-backup", "garbage-crc"}, {"valid-backup", "valid"},
+	{"valid-backup", "valid-zero"}, // the pre-image saved before a block's FIRST write: an all-zero block
 }
 
 func Run(r *report.Run) int {
@@ -633,7 +675,7 @@ func Run(r *report.Run) int {
 	return r.Finish(rule, assumptions, len(planned))
 }
 
-const rule = "case = (written block image, damage, backup state, looked-up id, updated id, update entry point); damage = single-bit flip (quick: all 32768 flips of the reference block with no backup (lookup on every flip, update on one bit per byte), and one bit per 4 bytes under each of the 6 other backup states; thorough: all flips of the reference block with no / checksum-invalid / valid backup and one bit per byte under the other 4 backup states, all flips with no backup for fill 1 and fill 66, one bit per byte for mod 2 and mod 250, one bit per 4 bytes for their other backup states, plus 600 bursts per image and backup state); fingerprint = (mod, fill, backup kind, damage kind, damaged region relative to the looked-up id, update entry point); non-trivial = the mutated block is invalid by the oracle's own checksum rule; floor = number of planned (image, backup kind, damage kind) classes"
+const rule = "case = (written block image, damage, backup state, looked-up id, updated id, update entry point); damage = single-bit flip (quick: all 32768 flips of the reference block with no backup (lookup on every flip, update on one bit per byte), and one bit per 4 bytes under each of the 7 other backup states (among them a valid all-zero backup: the pre-image of a block's first write); thorough: all flips of the reference block with no / checksum-invalid / valid backup and one bit per byte under the other 4 backup states, all flips with no backup for fill 1 and fill 66, one bit per byte for mod 2 and mod 250, one bit per 4 bytes for their other backup states, plus 600 bursts per image and backup state); fingerprint = (mod, fill, backup kind, damage kind, damaged region relative to the looked-up id, update entry point); non-trivial = the mutated block is invalid by the oracle's own checksum rule; floor = number of planned (image, backup kind, damage kind) classes"
 
 var assumptions = []string{
 	"the block is corrupted and the .cow file is placed with plain buffered file writes while no registry instance is open; every lookup/update then goes through a fresh fs.NewRegistry with a fresh in-memory L2 cache (disk truth)",
